@@ -252,16 +252,18 @@ func Run(ctx *core.Ctx) error {
 	var states int64
 
 	// 1. the design model, exhaustively
-	cfg := "MC_ResourceManager_q.cfg"
+	cfgs := []string{"MC_ResourceManager_q.cfg"}
 	if ctx.Thorough() {
-		cfg = "MC_ResourceManager_t.cfg"
+		cfgs = append(cfgs, "MC_ResourceManager_t.cfg")
 	}
-	res, err := ctx.MustHold(core.TLCOpts{Dir: "file", Module: "ResourceManager", Cfg: cfg, Workers: 12, Timeout: ctx.Dur(10, 40), XssMB: 512,
-		Constants: "2 Encoders x 9 behaviours, 3 Embedders, 1 function key, 2 deferred functions; programs of up to " + fmt.Sprint(ctx.Pick(3, 4)) + " calls"})
-	if err != nil {
-		return err
+	for _, cfg := range cfgs {
+		res, err := ctx.MustHold(core.TLCOpts{Dir: "file", Module: "ResourceManager", Cfg: cfg, Workers: 12, Timeout: ctx.Dur(10, 40), XssMB: 512,
+			Constants: "q: 2 Encoders x 9 behaviours, 3 Embedders, 1 function key, 2 deferred functions, programs of 3 calls; t: programs of 4 calls over 2 Encoders x 7, 2 Embedders"})
+		if err != nil {
+			return err
+		}
+		states += res.Distinct
 	}
-	states += res.Distinct
 
 	// 2. P-A: programs from the state graphs
 	var progs []Program
